@@ -305,6 +305,7 @@ fn raw_of(obj: &Obj) -> Result<Vec<u8>, String> {
 
 fn replay_chunk(cases: &[Value], rep: &mut Report) {
   for (ci, case) in cases.iter().enumerate() {
+    note_case(case);
     let op = &case["op"];
     let name = s(&op["name"]).to_string();
     let nbits = i(&case["n"]) as usize;
